@@ -5,9 +5,19 @@ Two senders are driven against scripted sockets (pvf/sim/sendpath.py):
   side "ctl": of_01.Connection.send + the REAL of_01.DeferredSender, whose run() executes on a second thread that
               only ever runs while the harness thread is parked (baton passing).  The case says, every time the
               sender thread sits in select(), which connections are writable / in exceptional condition, and how
-              many further Connection.send calls the cooperative side makes before select returns.
+              many further Connection.send calls the cooperative side makes before select returns.  With "sockpts" the
+              sender thread is also pre-empted at its socket writes (it holds its lock there): a Connection.send made at
+              such a point OVERLAPS the sender's locked section -- it runs up to `with self._lock`, waits there while the
+              sender thread runs on until it lets go of the lock, and continues before the sender runs again (keys of such
+              cases carry side "ctl-mt").  Bit 2 of "sockpts" pre-empts the sender thread inside the ConnectionDown
+              listeners it runs when it disconnects a connection after a fatal error; a connection's "on_down" makes
+              such a listener send a message to the other connection (from whichever thread raises the event).
+              "eof" lets the peer close a connection (the read loop closes it at its next
+              visit, possibly with bytes still parked).
   side "sw":  RecocoIOWorker.send / send_fast / shutdown / close inside the REAL RecocoIOLoop.run generator,
-              answered with the Select results the case dictates.
+              answered with the Select results the case dictates.  "rfault" makes the read side of a worker's socket
+              fail (end of stream, or recv() reporting a reset / time-out): the loop's _do_recv closes the worker, in a
+              round that may also report it writable with bytes pending.
 
 Oracle (from the property text, nothing of POX is consulted): per connection the bytes the socket ACCEPTED are a
 prefix of the concatenation of the queued messages, and all of it once enough writable calls were offered; after a
@@ -25,18 +35,29 @@ ID = "C20"
 LEVEL = "fault_enumeration"
 TECHNIQUE = ("scripted-socket fault enumeration (per send() call: accept all / half / 0 / EAGAIN / fatal) against the real "
              "Connection.send + DeferredSender thread under baton passing and the real RecocoIOLoop generator; Hypothesis for "
-             "longer scripts; stream-prefix/completeness oracle on the bytes the socket accepted")
+             "longer scripts; sender thread pre-empted at its socket writes, lock hand-overs and ConnectionDown listeners with the cooperative "
+             "thread waiting for the lock; read-side faults on the switch side; stream-prefix/completeness oracle on the bytes the socket accepted")
 LEVEL_TEXT = ("Fault enumeration: every script of 4 (thorough: 5) per-call socket outcomes from {accept all, accept half, accept 0, "
               "EAGAIN, fatal} is run against 3 (thorough: 4) queued messages of sizes below and above PIPE_BUF, under 4 placements "
               "of the sends relative to the flush rounds (controller: a fifth with only one connection writable per round), for both the controller connection with the real DeferredSender thread and "
               "the switch-side I/O worker in the real I/O loop (send, send_fast, mixed; with and without shutdown), always with a "
               "second connection sharing the sender/loop. Hypothesis adds longer scripts (up to 14 outcomes with arbitrary k), "
               "1-6 messages of 8..70000 bytes, arbitrary writable masks, select time-outs, read-loop visits, hand-over at every "
-              "DeferredSender lock acquisition. The real code runs; the socket, select and the pinger are the only fakes.")
-LEVEL_NOTE = ("the sender thread is interleaved with the cooperative side only at select() and at its _lock acquisitions (its loop body "
-              "is atomic with respect to Connection.send); OS-level pre-emption inside Connection.send is not explored here")
+              "DeferredSender lock acquisition. Overlap of the two threads inside the send path is enumerated as well: the sender "
+              "thread pre-empted before / after its 1st..3rd (thorough: 4th) socket write while the cooperative thread sends (and "
+              "waits for the sender's lock), every script of 3 (thorough: 4) outcomes, with and without a second backlog; the sender "
+              "thread pre-empted inside the ConnectionDown listeners it runs after a fatal error (a listener may itself send to the "
+              "other connection) while the cooperative side sends or its read loop closes the failed connection; and on the "
+              "switch side a failing read side (end of stream / reset) before, between and after the sends, noticed in a round that "
+              "reports the worker readable+writable, readable only, or writable first. "
+              "The real code runs; the socket, select and the pinger are the only fakes.")
+LEVEL_NOTE = ("the sender thread is interleaved with the cooperative side at select(), at its _lock acquisitions and releases, "
+              "immediately before / after each of its socket writes and at the start of the ConnectionDown listeners it runs; a cooperative send that meets the held lock waits exactly as long as "
+              "the sender holds it. Pre-emption of the sender thread between two other lines of its loop body, and pre-emption of the "
+              "cooperative thread inside Connection.send other than at the lock, are not explored")
 RULE = ("a case is a fault script per connection (one outcome per socket send() call), 1-6 messages and an op list (send / let the "
-        "sender or loop run one round with a writable mask / read-loop visit / shutdown / close); it is non-trivial when at least one "
+        "sender thread run to its next hand-over point or the loop run one round with writable and readable masks / read-loop visit / "
+        "peer closes / read side fails / shutdown / close); it is non-trivial when at least one "
         "short write or EAGAIN happened on a connection and a further message was queued on that connection while bytes of the "
         "earlier ones were still unflushed; distinct by SHA-1 of the canonical JSON of the case")
 ASSUMPTIONS = [
@@ -45,10 +66,22 @@ ASSUMPTIONS = [
   "a connection reported in select's exceptional set is closed by the controller's main loop (as OpenFlow_01_Task does) before the "
   "deferred sender processes the report; only the prefix property and closed-once are judged for it",
   "for a connection that never completed the handshake no ConnectionDown can be raised (no dpid); 'disconnected' is judged instead",
+  "a cooperative thread that finds DeferredSender._lock held waits until the sender thread releases it and then runs before the sender "
+  "thread does anything else (one of the schedules a real lock allows; the other order is the 'go' op after the send)",
+  "two threads queueing on the same connection at once have no order of their own: a message a ConnectionDown listener queues from the "
+  "sender thread while a cooperative Connection.send waits for the sender's lock is expected before that send's message, otherwise "
+  "messages are expected in the order of the Connection.send calls",
+  "a socket whose send() failed fatally is reported readable and fails recv() too (the read loop may close the connection while the "
+  "sender thread is still inside disconnect())",
+  "select() refuses a closed socket (fileno() == -1) with ValueError, as the real one does; a socket that is closed while the sender "
+  "thread already waits in select() with it is reported by the masks of the case as before",
+  "a socket that has reported a fatal error (to send() or to recv()) fails every later send() with EPIPE",
+  "end of stream on the read side is not a socket error: writes after it are labelled, not judged; a fatal error reported by recv() "
+  "(or by the recv(MSG_PEEK) probe of a failed connect) is one, and no send() may reach the socket after it",
   "messages queued after shutdown() or close() of an I/O worker are outside the property and are not generated",
   "IOWorker.shutdown() on an already empty buffer never shuts the socket down; this is labelled, not judged (the property is about bytes)",
   "a connecting worker's connection is noticed by _try_connect's recv(1, MSG_PEEK): EAGAIN or peer bytes mean connected; a refused "
-  "connection is only generated without peer bytes, i.e. noticed by _do_send (a failed connect is not a per-send outcome)",
+  "connection has no peer bytes and is reported readable and writable, so either _do_recv or _do_send notices it",
 ]
 EXHAUSTIVE_SCOPE = {
   "quick": "both sides: 5^4 scripts {all, half, 0, EAGAIN, EPIPE} x 3 messages (ctl: every size sequence over {8, 5000}; sw: 4 size "
@@ -57,8 +90,20 @@ EXHAUSTIVE_SCOPE = {
            "shutdown yes/no), second connection always present"
            "; connecting workers: 5^3 scripts x {0,1,2} sends before the connection is noticed x 4 connect-handler send sets x 4 ways "
            "the first round notices the connection (writable / readable+writable / readable only / writable with unread peer bytes) "
-           "x send|send_fast afterwards, plus refused connections",
-  "thorough": "as quick with 5^5 scripts x 4 messages (connecting workers: 5^4 scripts)",
+           "x send|send_fast afterwards, plus refused connections noticed by _do_send / by _do_recv with _do_send in the same round / by "
+           "_do_recv alone"
+           "; ctl-overlap-grid: 5^3 scripts x every size sequence over {8, 5000} for 3 messages x the sender thread pre-empted before | "
+           "after its 1st, 2nd or 3rd hand-over step's socket write when the 2nd message is sent (the send waits for the sender's lock) x "
+           "the 3rd message sent at once | one hand-over step later x second connection with | without parked bytes"
+           "; ctl-down-grid: connection 0 parks its first message (half | EAGAIN), 5^2 scripts for the sender thread's writes x message "
+           "of 8 | 5000 bytes x ConnectionDown listener silent | sends 8 | 5000 bytes to connection 1 x connection 1 short-writing with | "
+           "without its own backlog, or accepting everything x the cooperative side acting at the 1st..8th hand-over step (every socket "
+           "write of the sender thread, before and after, and the listeners) x {send to connection 1, send to connection 0, read-loop visit}"
+           "; sw-readfault-grid: 5^3 scripts x 2 messages over {8, 9000} x {end of stream, ECONNRESET} x fault before the 1st send | "
+           "between the sends | after a loop round x noticing round readable+writable | readable only | writable then readable+writable "
+           "x send | send_fast",
+  "thorough": "as quick with 5^5 scripts x 4 messages (connecting workers, overlap grid, read-fault grid: 5^4 scripts; overlap grid: "
+              "pre-emption up to the 4th step; down grid: 5^3 sender scripts, 10 steps; read-fault grid: also ETIMEDOUT)",
 }
 
 MAX_MSGS = 6
@@ -86,7 +131,7 @@ def _first_diff(a, b):
   return lo
 
 
-def _judge_stream(out, side, name, expected, sock, must_be_complete, broke_at):
+def _judge_stream(out, side, name, expected, sock, must_be_complete, broke_at, saf=None, judge_saf=True):
   acc = bytes(sock.sent)
   exp = bytes(expected)
   if acc != exp[:len(acc)]:
@@ -98,9 +143,11 @@ def _judge_stream(out, side, name, expected, sock, must_be_complete, broke_at):
     out.fail("stream-incomplete", "%s %s: %d of %d queued bytes were accepted although every later socket call "
              "accepted everything; socket calls: %s" % (side, name, len(acc), len(exp), _calls(sock)),
              side=side, broke_at=broke_at)
-  if sock.sends_after_fatal:
+  if sock.sends_after_fatal and not judge_saf:
+    out.label("send-attempt-on-a-socket-closed-after-end-of-stream")
+  elif sock.sends_after_fatal:
     out.fail("send-after-fatal", "%s %s: %d send() call(s) reached the socket after the fatal error / close; "
-             "socket calls: %s" % (side, name, sock.sends_after_fatal, _calls(sock)), side=side)
+             "socket calls: %s" % (side, name, sock.sends_after_fatal, _calls(sock)), side=side, **(saf or {}))
   for t in sock.trouble:
     out.fail("socket-misuse", "%s %s: %s" % (side, name, t), side=side, broke_at=broke_at)
 
@@ -129,15 +176,33 @@ def run_ctl(case, out, interleaver=None):
   import pox.openflow.libopenflow_01 as of
   conns = case["conns"]
   nc = len(conns)
-  rig = SP.ControllerRig(conns, case.get("lockpts"), interleaver)
+  sockpts = int(case.get("sockpts") or 0)
+  # "ctl-mt": the cooperative thread's sends may overlap the sender thread's locked section (two threads inside the
+  # send path at once); "ctl": the sender's loop body is atomic with respect to Connection.send
+  side = "ctl-mt" if sockpts else "ctl"
+  rig = SP.ControllerRig(conns, case.get("lockpts"), interleaver, sockpts)
   allmask = (1 << nc) - 1
   exp = [bytearray() for _ in range(nc)]
   excepted = [False] * nc
+  peer_gone = [False] * nc
+  inflight = [False] * nc      # a send of the cooperative thread was in progress while the sender thread disconnected the connection
   broke = [None] * nc
   nsent = 0
-  slices = 0
+  slices = [0]
+
+  def listener_send(t, data, on_sender):
+    # a ConnectionDown listener (of the connection before t) queues a message on connection t
+    if not rig.cons[t].disconnected:
+      exp[t] += data
+      slices[0] += 1 + len(data) // 4096
+    out.label("ctl-connectiondown-listener-sends-from-the-sender-thread" if on_sender else "ctl-connectiondown-listener-sends")
+    if on_sender and rig.harness_waiting:
+      out.label("ctl-listener-sends-while-a-cooperative-send-waits-for-the-lock")
+  rig.listener_send = listener_send
   try:
     def conservation(kind):
+      if rig.at[0] == "wrote":
+        return      # the socket has taken bytes the sender thread has not yet removed from its queue
       for i in range(nc):
         if broke[i] is None and not rig.socks[i].fatal and not rig.cons[i].disconnected:
           q = rig.ds._dataForConnection.get(rig.cons[i]) or []
@@ -159,19 +224,41 @@ def run_ctl(case, out, interleaver=None):
           out.label("ctl-send-while-unflushed")
         if rig.at[0] == "lock":
           out.label("ctl-send-while-sender-at-lock")
+        elif rig.at[0] in ("write", "wrote"):
+          out.label("ctl-send-while-sender-mid-write")
+          out.label("ctl-send-before-sender-write" if rig.at[0] == "write" else "ctl-send-after-sender-write")
+        elif rig.at[0] == "released":
+          out.label("ctl-send-right-after-sender-unlocked")
+        elif rig.at[0] == "down":
+          out.label("ctl-send-while-sender-runs-connectiondown-listeners")
         deferred_before = rig.ds.sending
+        blocked_before = rig.blocked
+        disc_before = con.disconnected
         if obj:
           wire = SP.echo_request(nsent, data[:size - 8])
           msg = of.ofp_echo_request(xid=nsent, body=data[:size - 8])
           out.label("ctl-message-object")
         else:
           wire = msg = data
-        if not con.disconnected:
-          exp[c] += wire
-          slices += 1 + len(wire) // 4096
+        live = not con.disconnected
         con.send(msg)
+        if live:
+          # queued once Connection.send returns: a message a listener on the sender thread queued while this send
+          # waited for the sender's lock comes first
+          exp[c] += wire
+          slices[0] += 1 + len(wire) // 4096
         if deferred_before:
           out.label("ctl-queued-behind-sender")
+        if rig.blocked > blocked_before:
+          seen = rig.blocked_log[-1]
+          out.label("ctl-send-blocked-on-sender-lock")
+          if seen["flush_complete"]:
+            out.label("ctl-blocked-send-parked-after-the-last-backlog-was-flushed")
+          if seen["writes"]:
+            out.label("ctl-sender-wrote-while-send-was-blocked")
+          if not disc_before and con.disconnected:
+            inflight[c] = True
+            out.label("ctl-send-in-progress-during-disconnect")
         conservation("send")
       elif kind == "go":
         wmask, emask = op[1] & allmask, (op[2] & allmask if len(op) > 2 else 0)
@@ -187,26 +274,47 @@ def run_ctl(case, out, interleaver=None):
           out.label("ctl-partial-writable-mask")
         conservation("go")
       elif kind == "visit":
+        where = rig.at[0]
         if rig.visit():
           out.label("ctl-visit-closed-a-connection")
+          if where == "down":
+            out.label("ctl-read-loop-closes-while-sender-runs-connectiondown-listeners")
+      elif kind == "eof":
+        # the peer closes the connection: the read loop finds end of stream at its next visit and closes it
+        c = op[1] % nc
+        if not rig.socks[c].closed and not peer_gone[c]:
+          peer_gone[c] = True
+          rig.socks[c].eof = True
+          out.label("ctl-peer-closed-with-backlog" if rig.queued(c) else "ctl-peer-closed")
       else:
         raise HarnessError("unknown ctl op %r" % (op,))
 
-    # enough writable calls: every connection writable until the sender has nothing left
-    budget = 4 * (sum(len(c.get("script") or []) for c in conns) + slices + nsent) + 60
-    if case.get("lockpts"):
-      budget *= 4
-    while budget > 0 and not rig.baton.done:
-      if rig.at[0] == "select" and rig.idle():
+    # enough writable calls: every connection writable until the sender has nothing left; then the read loop's visit
+    # (a ConnectionDown it raises may make a listener queue a further message: flush again, at most once per connection)
+    for _ in range(nc + 1):
+      budget = 4 * (sum(len(c.get("script") or []) for c in conns) + slices[0] + nsent) + 60
+      if case.get("lockpts"):
+        budget *= 4
+      if sockpts:
+        budget *= 3
+      while budget > 0 and not rig.baton.done:
+        if rig.at[0] == "select" and rig.idle():
+          break
+        rig.go(allmask, 0)
+        conservation("go")
+        budget -= 1
+      queued_before = slices[0]
+      rig.visit()
+      if slices[0] == queued_before:
         break
-      rig.go(allmask, 0)
-      conservation("go")
-      budget -= 1
-    rig.visit()
     if rig.timeouts:
       out.label("ctl-select-timeout")
     if rig.lock_yields:
       out.label("ctl-lock-handover")
+    if rig.sock_yields:
+      out.label("ctl-sender-preempted-at-socket-write")
+    if rig.down_yields:
+      out.label("ctl-sender-preempted-in-connectiondown-listeners")
     if nc > 1:
       out.label("ctl-two-connections")
     for i in range(nc):
@@ -224,18 +332,31 @@ def run_ctl(case, out, interleaver=None):
   finally:
     rig.teardown()
 
+  if rig.listener_errors:
+    raise rig.listener_errors[0]
   if rig.sender_error is not None:
     e = rig.sender_error
-    if isinstance(e, SystemExit) or exc_is_from_harness(e):
+    if isinstance(e, SP.ClosedDescriptorInSelect):
+      out.label("ctl-sender-selects-on-closed-socket")
+      out.fail("deferred-sender-died", "DeferredSender.run handed a closed socket (fileno() == -1) to select(), which raises "
+               "ValueError: the sender thread is gone, 'sending' stays %s and %d connection(s) keep parked bytes for ever"
+               % (rig.ds.sending, len(rig.ds._dataForConnection)), where="select-on-closed-socket")
+    elif isinstance(e, SystemExit) or exc_is_from_harness(e):
       raise HarnessError("sender thread failed inside the harness: %r" % (e,)) from e
-    out.violations.append({"key": exc_key(e, clause="deferred-sender-died", side="ctl"),
-                           "msg": "DeferredSender.run ended with %r" % (e,)})
+    else:
+      out.violations.append({"key": exc_key(e, clause="deferred-sender-died", side=side),
+                             "msg": "DeferredSender.run ended with %r" % (e,)})
   for i in range(nc):
     s, con = rig.socks[i], rig.cons[i]
     name = "connection %d" % i
     _label_sock(out, s)
-    dead = s.fatal or excepted[i]
-    _judge_stream(out, "ctl", name, exp[i], s, not dead, broke[i])
+    dead = s.fatal or excepted[i] or peer_gone[i]
+    saf = {"queued": "by-a-send-in-progress-during-the-disconnect" if inflight[i] else "otherwise"} if sockpts else None
+    # a sender thread that has died is reported above; what it leaves unsent is the same root cause
+    # end of stream is not a socket error: a send() attempt on the socket object the read loop has closed since
+    # fails with EBADF and writes nothing; it is labelled, not judged
+    _judge_stream(out, side, name, exp[i], s, not dead and rig.sender_error is None, broke[i], saf,
+                  judge_saf=s.fatal or not peer_gone[i])
     hs = bool(conns[i].get("hs"))
     dn, dc = rig.down_nexus[i], rig.down_con[i]
     if dead:
@@ -244,20 +365,20 @@ def run_ctl(case, out, interleaver=None):
         if nc > 1 and any(not rig.socks[j].fatal and len(exp[j]) for j in range(nc) if j != i):
           out.label("ctl-sibling-of-a-failed-connection")
       if not con.disconnected:
-        out.fail("closed-not-reported", "ctl %s: fatal socket error but the connection is not disconnected" % name, side="ctl")
+        out.fail("closed-not-reported", "ctl %s: fatal socket error but the connection is not disconnected" % name, side=side)
       if not s.shutdown_at and not s.closed:
-        out.fail("closed-not-reported", "ctl %s: fatal socket error but the socket was neither shut down nor closed" % name, side="ctl")
+        out.fail("closed-not-reported", "ctl %s: fatal socket error but the socket was neither shut down nor closed" % name, side=side)
       if hs and (dn == 0 or dc == 0):
         out.fail("closed-not-reported", "ctl %s: ConnectionDown raised %d time(s) on the nexus and %d on the connection after "
-                 "the read loop visited it" % (name, dn, dc), side="ctl")
+                 "the read loop visited it" % (name, dn, dc), side=side)
       if dn > 1 or dc > 1:
-        out.fail("closed-more-than-once", "ctl %s: ConnectionDown raised %d time(s) on the nexus, %d on the connection" % (name, dn, dc), side="ctl")
+        out.fail("closed-more-than-once", "ctl %s: ConnectionDown raised %d time(s) on the nexus, %d on the connection" % (name, dn, dc), side=side)
       if hs:
         out.label("ctl-connectiondown-from-sender-thread" if rig.down_thread.get(i) == "t" else "ctl-connectiondown-deferred-to-visit")
     else:
       if con.disconnected or dn or dc or s.shutdown_at or s.closed:
         out.fail("spurious-close", "ctl %s: no fatal outcome on this socket but disconnected=%s ConnectionDown=%d/%d shutdowns=%d closed=%s"
-                 % (name, con.disconnected, dn, dc, len(s.shutdown_at), s.closed), side="ctl")
+                 % (name, con.disconnected, dn, dc, len(s.shutdown_at), s.closed), side=side)
   return out
 
 
@@ -272,6 +393,8 @@ def run_sw(case, out):
   broke = [None] * nw
   shut = [None] * nw        # buffer length when shutdown() was called
   user_closed = [False] * nw
+  peer_gone = [False] * nw      # the peer closed the connection (recv() reports end of stream)
+  recv_fault = [None] * nw      # recv() reports a fatal socket error (errno name)
   nsent = 0
   nhandler = [0]
   raised = False
@@ -354,8 +477,16 @@ def run_sw(case, out):
         before = list(rig.connects)
         was_connecting = [w._connecting for w in rig.workers]
         pending_in = [bool(s.inbox) for s in rig.socks]
+        alive = [not w.closed for w in rig.workers]
         rig.round(wmask, rmask)
         for i in range(nw):
+          if alive[i] and rig.workers[i].closed and (peer_gone[i] or rig.socks[i].fatal_via == "recv"):
+            out.label("sw-closed-by-read-side")
+            if asked[i] and (wmask >> i) & 1:
+              out.label("sw-closed-by-read-side-in-a-round-that-also-reports-it-writable")
+              at = rig.socks[i].calls_at_rd_shutdown      # RecocoIOWorker.close shuts the read side down
+              if at is not None and len(rig.socks[i].calls) > at:
+                out.label("sw-write-after-read-side-closed-the-worker")
           if rig.connects[i] > before[i]:
             out.label("sw-connect-noticed-by-recv" if pending_in[i] and (rmask >> i) & 1 else "sw-connect-noticed-by-send")
           elif was_connecting[i] and not rig.workers[i]._connecting and rig.socks[i].connect_error:
@@ -363,6 +494,20 @@ def run_sw(case, out):
         if any(asked[i] and not (wmask >> i) & 1 for i in range(nw)):
           out.label("sw-not-writable-round")
         conservation("loop")
+      elif kind == "rfault":
+        # the read side of worker i's socket fails from now on: "eof" (the peer closed the connection) or a fatal
+        # error reported by recv(); the worker learns of it in the next loop round that finds it readable
+        i = op[1] % nw
+        s, w = rig.socks[i], rig.workers[i]
+        if not (w.closed or s.fatal or peer_gone[i] or recv_fault[i] or w._connecting):
+          if op[2] == "eof":
+            peer_gone[i] = True
+            s.eof = True
+          else:
+            recv_fault[i] = op[2]
+            s.recv_error = getattr(SP.errno, op[2])
+          out.label("sw-read-side-%s" % ("eof" if op[2] == "eof" else "error"))
+          out.label("sw-read-side-fails-with-pending-bytes" if w.send_buf else "sw-read-side-fails-when-flushed")
       elif kind == "shutdown":
         i = op[1] % nw
         if shut[i] is None and not user_closed[i]:
@@ -381,7 +526,10 @@ def run_sw(case, out):
 
     if not raised:
       budget = 3 * (sum(len(sp.get("script") or []) for sp in specs) + nsent) + 30
-      while budget > 0 and not rig.idle():
+
+      def unnoticed():
+        return any((peer_gone[i] or recv_fault[i]) and not rig.workers[i].closed for i in range(nw))
+      while budget > 0 and not (rig.idle() and not unnoticed()):
         rig.round(allmask)
         conservation("loop")
         budget -= 1
@@ -408,8 +556,9 @@ def run_sw(case, out):
     s, w = rig.socks[i], rig.workers[i]
     name = "worker %d" % i
     _label_sock(out, s)
-    dead = s.fatal or user_closed[i]
-    _judge_stream(out, "sw", name, exp[i], s, not dead and not rig.dead, broke[i])
+    dead = s.fatal or user_closed[i] or peer_gone[i]
+    saf = {"after": "error-reported-by-recv"} if s.fatal_via == "recv" else None
+    _judge_stream(out, "sw", name, exp[i], s, not dead and not rig.dead, broke[i], saf)
     for how, at in s.shutdown_at:
       if how == 1 and at != len(exp[i]) and not dead:     # socket.SHUT_WR
         out.fail("shutdown-before-flush", "sw %s: SHUT_WR after %d of %d queued bytes" % (name, at, len(exp[i])), side="sw", broke_at=broke[i])
@@ -490,6 +639,59 @@ def _enum_ctl(tier):
                "ops": b(list(sizes), 5000 if pi & 2 else 8)}
 
 
+def _enum_ctl_overlap(tier):
+  """Sends of the cooperative thread that OVERLAP the sender thread's locked flush section: the sender thread is
+  pre-empted at its a-th socket write (before the call, or after the socket has answered), the cooperative thread
+  sends the next message there -- it has to wait for the sender's lock and goes on when the sender lets go of it --
+  and the message after that either at once (the sender thread has not run since it released the lock) or one
+  hand-over step later.  With and without a second connection whose parked bytes keep the sender busy."""
+  calls, amax = (3, 3) if tier == "quick" else (4, 4)
+  for script in itertools.product(OUT5, repeat=calls):
+    for sizes in itertools.product([8, 5000], repeat=3):
+      for a in range(1, amax + 1):
+        for g in (0, 1):
+          for sockpts in (1, 2):
+            for with_b in (0, 1):
+              ops = [["send", 0, sizes[0], 0]]
+              if with_b:
+                ops.append(["send", 1, 5000, 0])
+              ops.extend([["go", 3, 0] for _ in range(a)])
+              ops.append(["send", 0, sizes[1], 0])
+              ops.extend([["go", 3, 0] for _ in range(g)])
+              ops.append(["send", 0, sizes[2], 0])
+              ops.extend([["go", 3, 0] for _ in range(calls + 2)])
+              yield {"side": "ctl", "lockpts": False, "sockpts": sockpts,
+                     "conns": [{"hs": True, "script": list(script)}, {"hs": bool(a & 1), "script": ["half"]}],
+                     "ops": ops}
+
+
+def _enum_ctl_down(tier):
+  """The sender thread meets a fatal error while flushing connection 0 and disconnects it: the ConnectionDown listeners
+  run ON THE SENDER THREAD (one of them may send to connection 1).  The sender thread is pre-empted before and after
+  each of its socket writes and inside the listeners; at the k-th hand-over step the cooperative side sends to
+  connection 1, sends to connection 0, or its read loop visits (and closes) the failed connection."""
+  steps = 8 if tier == "quick" else 10
+  tails = list(itertools.product(OUT5, repeat=2 if tier == "quick" else 3))
+  for first in ("half", "eagain"):
+    for rest in tails:
+      for size in (8, 5000):
+        for on_down in (None, 8, 5000):
+          for bscript, pre_b in ((["half"], 0), (["half"], 1), (["all"], 0)):
+            for k in range(1, steps + 1):
+              for act in ([["send", 1, 8, 0]], [["visit"]], [["send", 0, 8, 0]]):
+                ops = [["send", 0, size, 0]]
+                if pre_b:
+                  ops.append(["send", 1, 5000, 0])
+                ops.extend([["go", 3, 0] for _ in range(k)])
+                ops.extend([list(o) for o in act])
+                ops.extend([["go", 3, 0] for _ in range(4)])
+                ops.append(["send", 1, 8, 0])
+                yield {"side": "ctl", "lockpts": False, "sockpts": 7,
+                       "conns": [{"hs": True, "script": [first] + list(rest), "on_down": on_down},
+                                 {"hs": bool(k & 1), "script": list(bscript)}],
+                       "ops": ops}
+
+
 def _sw_patterns(n, tail):
   L = ["loop", 3]
   for gaps, bpos in (([0] * n, 1), ([2] * n, 2), ([1] * n, 1), ([3] + [0] * (n - 1), 2)):
@@ -548,11 +750,41 @@ def _enum_sw_connect(tier):
                    "workers": [{"script": list(script), "connecting": True, "hsends": [list(h) for h in hs], "peer": peer},
                                ["half"]],
                    "ops": ops_for(pre, first, postfast)}
+  # a refused connection: the socket is reported readable and writable; noticed by _do_send, by _do_recv with _do_send
+  # following in the same round, by _do_recv alone
   for pre in presets:
     for hs in hsets[:2]:
-      yield {"side": "sw",
-             "workers": [{"script": [], "connecting": True, "hsends": [list(h) for h in hs], "refuse": True}, ["half"]],
-             "ops": ops_for(pre, ["loop", 3, 0], 0)}
+      for first in (["loop", 3, 0], ["loop", 3, 3], ["loop", 0, 3]):
+        yield {"side": "sw",
+               "workers": [{"script": [], "connecting": True, "hsends": [list(h) for h in hs], "refuse": True}, ["half"]],
+               "ops": ops_for(pre, first, 0)}
+
+
+def _enum_sw_readfault(tier):
+  """The read side of a worker's socket fails (the peer closes the connection; recv() reports a reset) while the
+  write side is under back-pressure: before any send, with bytes pending after the first send, after a loop round; the
+  round that notices it reports the worker readable and writable, readable only, or writable first and readable
+  in the next round."""
+  calls = 3 if tier == "quick" else 4
+  faults = ["eof", "ECONNRESET"] if tier == "quick" else ["eof", "ECONNRESET", "ETIMEDOUT"]
+  for script in itertools.product(OUT5, repeat=calls):
+    for sizes in itertools.product([8, 9000], repeat=2):
+      for fault in faults:
+        for pos in (0, 1, 2):
+          for first in ([["loop", 3, 3]], [["loop", 0, 3]], [["loop", 3, 0], ["loop", 3, 3]]):
+            for fast in (0, 1):
+              ops = [["send", 1, 9000, 0]]
+              if pos == 0:
+                ops.append(["rfault", 0, fault])
+              ops.append(["send", 0, sizes[0], fast])
+              if pos == 1:
+                ops.append(["rfault", 0, fault])
+              if pos == 2:
+                ops.extend([["loop", 3, 0], ["rfault", 0, fault]])
+              ops.append(["send", 0, sizes[1], fast])
+              ops.extend([list(o) for o in first])
+              ops.extend([["loop", 3] for _ in range(calls + 2)])
+              yield {"side": "sw", "workers": [list(script), ["half"]], "ops": ops}
 
 
 # --------------------------------------------------------------------------- Hypothesis
@@ -596,7 +828,13 @@ def _decode_ctl(genome, maxlen):
   g = _Genome(genome)
   nc = 1 if g.take(4) == 0 else 2
   lockpts = bool(g.take(2))
+  # pre-emption of the sender thread before (1) / after (2) its socket writes and inside ConnectionDown listeners (4)
+  sockpts = [0, 0, 1, 2, 3, 7, 5, 6][g.take(8)]
+  eofs = g.take(4) == 1                       # the peer may close a connection
   conns = [{"hs": bool(g.take(2)), "script": _g_script(g, maxlen)} for _ in range(nc)]
+  if nc > 1:
+    for c in conns:
+      c["on_down"] = [None, None, None, 8, 5000][g.take(5)]     # a ConnectionDown listener that sends to the other connection
   allmask = (1 << nc) - 1
   exc = g.take(8) == 1
   nsend = 1 + g.take(MAX_MSGS)
@@ -604,8 +842,10 @@ def _decode_ctl(genome, maxlen):
   def others(k):
     r = []
     for _ in range(k):
-      kind = g.take(5)
-      if kind == 4:
+      kind = g.take(20)
+      if kind >= 19 and eofs:
+        r.append(["eof", g.take(nc)])
+      elif kind >= 16:
         r.append(["visit"])
       else:
         w = g.take(2 * (allmask + 1))
@@ -618,7 +858,7 @@ def _decode_ctl(genome, maxlen):
   for _ in range(nsend):
     ops.append(["send", g.take(nc), _g_size(g), int(g.take(5) == 1)])
     ops.extend(others(_GAPS[g.take(len(_GAPS))]))
-  return {"side": "ctl", "lockpts": lockpts, "conns": conns, "ops": ops}
+  return {"side": "ctl", "lockpts": lockpts, "sockpts": sockpts, "conns": conns, "ops": ops}
 
 
 def _decode_sw(genome, maxlen):
@@ -637,9 +877,13 @@ def _decode_sw(genome, maxlen):
   allmask = (1 << nw) - 1
   fastmode = [0, 1, 2, 0][g.take(4)]                # never / always / mixed
 
+  rfaults = g.take(4) == 1                         # the read side of a socket may fail
+
   def loops(k):
     r = []
     for _ in range(k):
+      if rfaults and g.take(6) == 1:
+        r.append(["rfault", g.take(nw), ["eof", "ECONNRESET", "eof", "ETIMEDOUT"][g.take(4)]])
       w = g.take(2 * (allmask + 1))
       rm = g.take(2 * (allmask + 1))
       r.append(["loop", allmask if w > allmask else allmask - w, allmask if rm > allmask else allmask - rm])
@@ -681,8 +925,11 @@ def plan(tier):
   q = tier == "quick"
   return [
     Enum("ctl-grid", lambda: _enum_ctl(tier), shards=16),
+    Enum("ctl-overlap-grid", lambda: _enum_ctl_overlap(tier), shards=16),
+    Enum("ctl-down-grid", lambda: _enum_ctl_down(tier), shards=16),
     Enum("sw-grid", lambda: _enum_sw(tier), shards=16),
     Enum("sw-connect-grid", lambda: _enum_sw_connect(tier), shards=16),
+    Enum("sw-readfault-grid", lambda: _enum_sw_readfault(tier), shards=16),
     Hyp("ctl-scripts", lambda: _ctl_case(tier), examples=8000 if q else 300000, shards=16),
     Hyp("sw-scripts", lambda: _sw_case(tier), examples=8000 if q else 300000, shards=16),
   ]
